@@ -759,11 +759,16 @@ class Universe:
     # ========================================================= helper contracts
     def covd3(self, f, idx):
         f = np.asarray(f, dtype=object)
+        if f.ndim == 0:
+            return D3(f[()])
         return covd(self['s_Gamma_udd3'], f, D3(f), idx)
 
     def covd4(self, f, dtf, idx):
         f = np.asarray(f, dtype=object)
-        Df = arr([np.asarray(dtf, dtype=object)] + list(D3(f)))
+        dtf = np.asarray(dtf, dtype=object)
+        if f.ndim == 0:
+            return arr([dtf[()]] + list(D3(f[()])))
+        Df = arr([dtf] + list(D3(f)))
         return covd(self['st_Gamma_udd4'], f, Df, idx)
 
     def lie_beta(self, f, idx, weight=0, dim=3):
